@@ -172,6 +172,16 @@ def db_obs(db):
     d["order"] = list(d["order"])
     if not G.dialect_ok(d):
         raise ValueError("dialect of unexpected shape")
+    # what a caller does to the objects it was handed must not leak into later reads of the database
+    for f in db.all_features():
+        try:
+            keys = list(f.attributes.keys())
+            if keys:
+                f.attributes[keys[0]].append("zz-edited")
+            f.attributes["zz_edit"] = ["1"]
+            f.extra.append("zz")
+        except Exception:
+            pass
     feats = []
     for f in db.all_features():
         o = G.feature_obs(f)
